@@ -67,19 +67,30 @@ def run(ctx, rep):
     rep.assumptions = ["multiprocessing.Pool returns each job's own result (completion order arbitrary)"]
     lines, meta = [], []
     n_serial = ctx.n(1500, 15000)
-    n_mp = ctx.n(6, 60)
+    n_mp = ctx.n(12, 80)
     for t in range(n_serial + n_mp):
         mp = t >= n_serial
         pop = mkpop(rng, rng.randrange(0, 13) if not mp else rng.randrange(2, 9))
         redundant = rng.random() < 0.3
         costmod = rng.choice([0, 0, 3, 4])
+        aliased = False
+        if len(pop) >= 3 and rng.random() < 0.15:
+            pop[rng.randrange(1, len(pop))] = pop[0]           # the same object in two slots
+            aliased = True
         before = [(c.values[0], c.fit_set, c.fitness) for c in pop]
         ids = [id(c) for c in pop]
         fit = CostFitness(costmod, delay=mp)
         ev = Evaluation(fit, redundant=redundant, multiprocess=(rng.choice([2, 3, 4]) if mp else False))
         with warnings.catch_warnings():
             warnings.simplefilter("ignore")
+            warm = 0
+            if mp and rng.random() < 0.6:
+                # the evaluator has been used before (an island calls it every generation)
+                wp = mkpop(rng, rng.randrange(2, 5))
+                ev(wp)
+                warm = ev.eval_count
             ev(pop)
+            ev.eval_count -= warm
         after = [(c.values[0], c.fit_set, c.fitness) for c in pop]
         due = [i for i, (g, fs, f) in enumerate(before) if redundant or not fs]
         case = {"before": [(g, fs, fit_str(f)) for g, fs, f in before], "redundant": redundant, "costmod": costmod, "multiprocess": mp}
@@ -88,6 +99,16 @@ def run(ctx, rep):
         rep.count("redundant", redundant)
         rep.sample(case)
         # ---------- oracle
+        if aliased:
+            # slots sharing one object: every slot must end up evaluated with the right fitness; the count must equal the invocations
+            # (serial evaluation evaluates the shared object once, worker processes evaluate each slot's copy)
+            for i, (g1, fs1, f1) in enumerate(after):
+                w = float("nan") if g1 % 13 == 12 else float(g1)
+                if (i in due) and (not fs1 or not (f1 == w or (math.isnan(w) and math.isnan(f1)))):
+                    rep.violate(f"slot {i} (an object that also sits in another slot) was due but holds fit_set={fs1}, fitness={f1}", "C19:not-evaluated", case)
+            if not mp and ev.eval_count != fit.invocations - 0:
+                rep.violate(f"evaluation count {ev.eval_count} differs from the invocations {fit.invocations}", "C19:count", case)
+            continue
         want_count = sum((1 if costmod == 0 else before[i][0] % costmod + 1) for i in due)
         if ev.eval_count != want_count:
             rep.violate(f"evaluation count {ev.eval_count}, fitness function invoked {want_count} times", "C19:count", case)
@@ -103,7 +124,7 @@ def run(ctx, rep):
             else:
                 if (fs1, fit_str(f1)) != (fs0, fit_str(f0)) or (not mp and id(pop[i]) != ids[i]):
                     rep.violate(f"slot {i} was marked evaluated but was touched", "C19:touched", case)
-        if ctx.driver_ok:
+        if ctx.driver_ok and not aliased:
             lines.append(f"evalphase ; {1 if redundant else 0} ; {costmod} ; " + " ".join(f"{g}:{1 if fs else 0}" for g, fs, _ in before))
             meta.append((case, ev.eval_count, [(g, fs) for g, fs, _ in after], due))
     if ctx.driver_ok:
